@@ -53,7 +53,7 @@ fn injections(n: usize, m: usize) -> Vec<Vec<usize>> {
 impl C14 {
     pub fn new() -> C14 {
         C14 {
-            quick: Pool::new(499),
+            quick: Pool::new(599),
             thorough: Pool::new(97),
         }
     }
@@ -333,7 +333,7 @@ impl Property for C14 {
     }
     fn info(&self, tier: Tier) -> Info {
         Info {
-            rule: "templates = program pool (every 499th / 97th member of the quick S family, clean and with each injected violation); for each template the orbit of the temporaries it mentions (every injective assignment for <= 2 t-slots; for more, every single substitution plus 14 rotations/reflections), the orbit of its saved registers (every injective assignment for <= 2 s-slots: 132; for more, every single substitution - each slot takes each of s0-s11 - plus 24 rotations/reflections), and label renamings from a pool of 12 identifiers differing in length, case, digits, leading underscores and sort order (all injective maps for <= 2 labels; otherwise every single substitution - each label takes one name of each shape (7, among them `__return__`) - plus 24 rotations/reflections): the diagnostics of the renamed program, positions compared by (statement index, operand role) and registers mapped back, must equal the template's. Non-trivial = templates that draw at least one diagnostic".into(),
+            rule: "templates = program pool (every 599th / 97th member of the quick S family, clean and with each injected violation); for each template the orbit of the temporaries it mentions (every injective assignment for <= 2 t-slots; for more, every single substitution plus 14 rotations/reflections), the orbit of its saved registers (every injective assignment for <= 2 s-slots: 132; for more, every single substitution - each slot takes each of s0-s11 - plus 24 rotations/reflections), and label renamings from a pool of 12 identifiers differing in length, case, digits, leading underscores and sort order (all injective maps for <= 2 labels; otherwise every single substitution - each label takes one name of each shape (7, among them `__return__`) - plus 24 rotations/reflections): the diagnostics of the renamed program, positions compared by (statement index, operand role) and registers mapped back, must equal the template's. Non-trivial = templates that draw at least one diagnostic".into(),
             bounds: json!({"templates": self.pool(tier).count(), "t_class": 7, "s_class": 12, "label_pool": LABEL_POOL}),
             assumptions: vec!["canonical hash-order schedule; dependence on label hash order is C10's subject".into()],
             states_counter: "templates",
